@@ -183,7 +183,7 @@ def run(tier, t0):
     acc.sample({'phi_rad': 1.0, 'forward': 'AuthalicProjection.forward', 'oracle': 'asin(q(phi)/q(pi/2)), q = (1-e^2)[sin/(1-e^2 sin^2) + atanh(e sin)/e], WGS84'})
     acc.sample({'ladder': '+-10^(-k/8) from 0, +-pi/2 and every multiple of pi/12, k = 0..128'})
     rule = (f'uniform grid of {n} + 1 latitudes on [-90, 90] degrees (consecutive points also checked for strict increase) and log-spaced ladders 10^(-k/8), k = 0..128, towards 0, +-90 and every multiple of 15 degrees from both sides, '
-            'through AuthalicProjection.forward/inverse and from_lonlat/to_lonlat; plus all operation sequences of length 2 and 3 over forward/inverse at 53 latitudes on a shared converter; non-trivial = cases meeting every bound')
+            'through AuthalicProjection.forward/inverse and from_lonlat/to_lonlat (at a rotating menu of 13 longitudes including +-180, -200, -270, 300, 360, 540.5; all of them on the ladders); plus all operation sequences of length 2 and 3 over forward/inverse at 53 latitudes on a shared converter; non-trivial = cases meeting every bound')
     return common.finish(PID, LEVEL, tier, acc, t0, rule, [
         'closed-form WGS84 authalic latitude with f = 1/298.257223563, evaluated through the colatitude above 40 degrees so that the oracle itself has no cancellation',
         'a 6-term trigonometric polynomial has no feature narrower than the grid spacing (3.1e-6 rad quick, 7.9e-7 rad thorough)',
